@@ -238,6 +238,17 @@ func (v *View) checkC09(res *Result) {
 					owned = false
 					res.Obs["c09.deletekey_term_ended_concurrently"]++
 				}
+				if t.Down >= 0 && v.Ev[t.Down].G != a.G {
+					// ANOTHER stop call of the application, already under way when this one was
+					// issued, ended the term (a plain Stop, say, which deletes nothing): this call
+					// stopped a stopped election
+					for _, b := range v.APIs {
+						if b != a && b.Inst == a.Inst && b.IsStop() && b.Call < a.Call && (b.Ret < 0 || b.Ret > a.Call) && b.G == v.Ev[t.Down].G {
+							owned = false
+							res.Obs["c09.deletekey_term_ended_by_other_stop_call"]++
+						}
+					}
+				}
 				// (the clause presupposes a store that answers the shutdown's own read and
 				// delete: a fault injected into one of them is C03/C06 territory)
 				for _, c := range v.CallsL {
